@@ -328,7 +328,7 @@ fn raster_fragments_own_depth() {
 
 // @ob props=C04,C02 tier=quick kind=P cfg=core-std timeout=1800
 // @fn scan ; <ScanlineIter<V> as Iterator>::next
-// @clause through the public API only: iterating scan() over a vertical-sided trapezoid with ANY float y-range inside [0,4] emits exactly the rows whose centre lies in (y0, y1], each once and in increasing order, each with the span of centres in (x_left, x_right]; nothing for an empty or inverted range
+// @clause through the public API only: iterating scan() over a vertical-sided trapezoid with ANY float y-range inside [0,4] emits exactly the rows whose centre lies in (y0, y1] (centres within 0.001 px of y0 or y1 exempt, as in the property), each once and in increasing order, each with the span of centres in (x_left, x_right]; nothing for an empty or inverted range
 #[cfg(not(verif_skip_raster_scan_rows_public_api))]
 #[kani::proof]
 #[kani::unwind(7)]
@@ -349,7 +349,15 @@ fn raster_scan_rows_public_api() {
     let mut k = 0;
     while k < 4 {
         let c = k as F + 0.5;
-        assert!(rows[k] == if y0 < c && c <= y1 { 1 } else { 0 });
+        // the property's tolerance band: a centre within 0.001 px of the top or bottom edge may go either way
+        // (a y0 one ulp below a centre is rounded onto it by `y0 + 0.5`, DESIGN 3a.1)
+        if y0 + 0.001 < c && c <= y1 - 0.001 {
+            assert!(rows[k] == 1);
+        } else if c < y0 - 0.001 || c > y1 + 0.001 {
+            assert!(rows[k] == 0);
+        } else {
+            assert!(rows[k] <= 1);
+        }
         k += 1;
     }
 }
